@@ -62,3 +62,13 @@ func VerifMiddleBit(hex string) bool { return middleBit(hex) }
 func (s *BadgerStore) VerifDBTopologicalEvents(start, count int) ([]*Event, error) {
 	return s.dbTopologicalEvents(start, count)
 }
+
+// VerifNextTopologicalIndex returns the counter that will be given to the next
+// inserted event.
+func (h *Hashgraph) VerifNextTopologicalIndex() int { return h.topologicalIndex }
+
+// VerifWitness exposes the memoised witness predicate.
+func (h *Hashgraph) VerifWitness(x string) (bool, error) { return h.witness(x) }
+
+// VerifRoundOf exposes the memoised round function.
+func (h *Hashgraph) VerifRoundOf(x string) (int, error) { return h.round(x) }
